@@ -144,7 +144,7 @@ Silent ==
        \/ (pend.op = "reset" /\ MgrResetBegin /\ Begun)
        \/ (pend.op = "shutdown" /\ MgrShutdownBegin /\ Begun)
        \/ ((MgrStopEnd \/ MgrShutdownRelease \/ MgrShutdownEnd) /\ UNCHANGED pend)
-       \/ ((PipeAdvance \/ Handoff \/ PipeTakeStop) /\ UNCHANGED pend)
+       \/ ((PipeRetry \/ PipeAdvance \/ Handoff \/ PipeTakeStop) /\ UNCHANGED pend)
        \/ (\E e \in DOMAIN ep : Closer(e) /\ UNCHANGED pend)
 
 TraceNext == Logged \/ Silent
